@@ -17,8 +17,10 @@ F2 termination: a database with thousands of day directories (one tiny block eac
 import json
 import os
 import re
+import shutil
 import signal
 import subprocess
+import tempfile
 import threading
 import time
 import vlib
@@ -65,7 +67,9 @@ def abstract_dump(text):
     for state, funcs, blk in gs:
         joined = " ".join(funcs)
         if "CreateWorkerJobs" in joined:
-            st["producer"] = "blocked-send" if state.startswith("chan send") and "runtime.chansend" in joined else "running"
+            st["producer"] = "blocked-send" if state.startswith("chan send") else "running"
+            # the goroutine that would start the workers afterwards (RunStatement -> ExecuteWorkerReadJobs) is the blocked one
+            st["producer_is_caller_of_workers"] = "RunStatement" in joined
             keep.append(blk)
         if "grabAndProcessWorkload" in joined:
             st["workers"] += 1
@@ -81,13 +85,22 @@ def abstract_dump(text):
 
 def deadlock_proven(st):
     # the only receivers of the work channel are the workers, which the blocked goroutine itself starts later
-    return st["producer"] == "blocked-send" and st["workers"] == 0 and not st.get("executing")
+    return (st["producer"] == "blocked-send" and st.get("producer_is_caller_of_workers") and st["workers"] == 0
+            and not st.get("executing"))
 
 
 # ----------------------------------------------------------------------------- children
 
-def child(vh, cpus, db, queries, lowmem=False, gomaxprocs=None, limit=600, env_extra=None, reps=1):
-    """run wq-query pinned to the CPU list; returns dict(events, timeout, secs, stderr)"""
+def last_dump(err):
+    i = err.rfind("WQ-DUMP-BEGIN")
+    j = err.rfind("WQ-DUMP-END")
+    return err[i + 14:j] if 0 <= i < j else ""
+
+
+def child(vh, cpus, db, queries, lowmem=False, gomaxprocs=None, limit=600, env_extra=None, reps=1, probe=None, workdir=None):
+    """run wq-query pinned to the CPU list.  probe: seconds after which (and then again and again) the child is asked
+    (SIGUSR1) for the stacks of its goroutines; two consecutive dumps that prove a permanent block end the wait early.
+    Returns dict(events, timeout, secs, stderr, proven)."""
     env = dict(os.environ, GOTRACEBACK="all")
     env.pop("GOMAXPROCS", None)
     if gomaxprocs:
@@ -95,42 +108,66 @@ def child(vh, cpus, db, queries, lowmem=False, gomaxprocs=None, limit=600, env_e
     if env_extra:
         env.update(env_extra)
     cmd = ["taskset", "-c", cpus, vh, "wq-query", "-db", db, "-reps", str(reps)] + (["-lowmem"] if lowmem else [])
+    wd = tempfile.mkdtemp(prefix="child-", dir=workdir)
+    fo, fe = open(os.path.join(wd, "out"), "w+"), open(os.path.join(wd, "err"), "w+")
     t0 = time.time()
-    p = subprocess.Popen(cmd, stdin=subprocess.PIPE, stdout=subprocess.PIPE, stderr=subprocess.PIPE, text=True, env=env)
-    data = "".join(json.dumps(q) + "\n" for q in queries)
-    try:
-        out, err = p.communicate(data, timeout=limit)
-        to = False
-    except subprocess.TimeoutExpired:
-        p.send_signal(signal.SIGQUIT)
+    p = subprocess.Popen(cmd, stdin=subprocess.PIPE, stdout=fo, stderr=fe, text=True, env=env)
+    p.stdin.write("".join(json.dumps(q) + "\n" for q in queries))
+    p.stdin.close()
+    to, proven, nproofs = False, False, 0
+    nextprobe = t0 + probe if probe else None
+    while True:
         try:
-            out, err = p.communicate(timeout=60)
+            p.wait(timeout=0.25)
+            break
         except subprocess.TimeoutExpired:
-            p.kill()
-            out, err = p.communicate()
-        to = True
+            pass
+        now = time.time()
+        if nextprobe and now >= nextprobe:
+            p.send_signal(signal.SIGUSR1)
+            time.sleep(1.0)
+            st, _ = abstract_dump(last_dump(open(os.path.join(wd, "err")).read()))
+            nproofs = nproofs + 1 if deadlock_proven(st) else 0
+            nextprobe = time.time() + (3.0 if nproofs else probe)
+            if nproofs >= 2:
+                proven = True
+        if proven or now - t0 > limit:
+            to = True
+            p.send_signal(signal.SIGQUIT)
+            try:
+                p.wait(timeout=60)
+            except subprocess.TimeoutExpired:
+                p.kill()
+                p.wait()
+            break
+    secs = time.time() - t0
+    fo.close()
+    fe.close()
+    out, err = open(os.path.join(wd, "out")).read(), open(os.path.join(wd, "err")).read()
+    shutil.rmtree(wd, ignore_errors=True)
     evs = []
     for ln in out.splitlines():
         try:
             evs.append(json.loads(ln))
         except Exception:
             pass
-    return {"events": evs, "timeout": to, "secs": time.time() - t0, "stderr": err, "rc": p.returncode}
+    return {"events": evs, "timeout": to, "secs": secs, "stderr": err, "rc": p.returncode}
 
 
 def idle_dump(vh):
-    """negative control for the dump classifier: a healthy child (waiting for its first query) is dumped"""
+    """negative control for the dump classifier: a healthy child (waiting for its first query) is asked for its stacks"""
     env = dict(os.environ, GOTRACEBACK="all")
     p = subprocess.Popen(["taskset", "-c", "0", vh, "wq-query", "-db", "/nonexistent"], stdin=subprocess.PIPE,
                          stdout=subprocess.PIPE, stderr=subprocess.PIPE, text=True, env=env)
-    time.sleep(0.5)
-    p.send_signal(signal.SIGQUIT)
+    time.sleep(1.0)
+    p.send_signal(signal.SIGUSR1)
+    time.sleep(1.0)
     try:
-        _, err = p.communicate(timeout=30)
+        _, err = p.communicate("", timeout=30)
     except subprocess.TimeoutExpired:
         p.kill()
         _, err = p.communicate()
-    return err
+    return last_dump(err)
 
 
 def days_query(d):
@@ -179,10 +216,9 @@ def main():
         return threading.Thread(target=f)
 
     with vlib.Scratch("verif-c11-") as sc:
-        wset = "{0, 1, 2, 3, 4, 5, 6, 7}" if thorough else "{0, 1, 2, 3, 4, 5, 6}"
+        wset = "{0, 1, 2, 3, 4, 5, 6, 7}" if thorough else "{0, 1, 2, 3, 4, 5}"
         jobs = [tlcjob("design", "WorkQueue", "WorkQueueMC.cfg", "CONSTANT WSet = %s" % wset, coverage=True, workers=6),
-                tlcjob("fits", "WorkQueue", "WorkQueueAsBuilt.cfg", None, workers=3),
-                tlcjob("over", "WorkQueuePredict", "WorkQueueAsBuilt.cfg", 'CONSTANT WClass = "over"', workers=1)]
+                tlcjob("over", "WorkQueuePredict", "WorkQueueAsBuilt.cfg", None, workers=1)]
         if thorough:
             jobs.append(tlcjob("two-ifaces", "WorkQueue", "WorkQueueMC.cfg",
                                "CONSTANT NIfaces = 2\nCONSTANT LowMem = TRUE\nCONSTANT WSet = {0, 1, 3, 5}\nCONSTANT MapCap = 1", workers=4))
@@ -196,12 +232,15 @@ def main():
         if p.returncode != 0:
             raise vlib.MachineryError("wq-days failed: " + p.stderr[-2000:])
         days_dbev = p.stdout.strip()
-        base = child(vh, "0", ddb, [days_query(2000)], limit=900)
+        base = child(vh, "0", ddb, [days_query(2000)], limit=900, workdir=sc)
         vlib.require(not base["timeout"] and base["events"] and not base["events"][0]["err"],
                      "baseline query over 2000 day directories failed: %s" % base["stderr"][-500:])
         vlib.require(base["events"][0]["numcpu"] == 1, "taskset did not restrict the child to one CPU")
         tnorm = base["events"][0]["secs"]
-        limit = max(90.0, 60 * tnorm) if thorough else min(120.0, max(20.0, 10 * tnorm))
+        # generous limit (a healthy run on a loaded machine must not be cut short); a run that looks stuck is asked for
+        # its goroutine stacks after `probe` seconds and ended early only if two dumps prove a permanent block
+        limit = max(120.0, 100 * tnorm)
+        probe = max(6.0, 6 * tnorm)
         tcases = [(2047, 1), (2048, 1), (2049, 1), (2100, 1)] + ([(4095, 2), (4096, 2), (4097, 2)] if thorough else [])
         tres = {}
 
@@ -209,7 +248,7 @@ def main():
             cpus = str(1 + i) if k == 1 else "%d-%d" % (1 + 2 * i, 2 + 2 * i)
             if NCPU <= 2 * i + 2:
                 cpus = "0" if k == 1 else "0-1"
-            tres[(d, k)] = child(vh, cpus, ddb, [days_query(d)], limit=limit)
+            tres[(d, k)] = child(vh, cpus, ddb, [days_query(d)], limit=limit, probe=probe, workdir=sc)
         tj = [threading.Thread(target=trun, args=(i, d, k)) for i, (d, k) in enumerate(tcases)]
         for t in tj:
             t.start()
@@ -240,7 +279,7 @@ def main():
             for ci in range(idx, len(configs), 3):
                 k, lowmem, gmp, extra = configs[ci]
                 eres[ci] = child(vh, "0-%d" % (k - 1) if k > 1 else "0", edb, queries, lowmem=lowmem, gomaxprocs=gmp,
-                                 limit=900, env_extra=extra, reps=2 if thorough else 1)
+                                 limit=900, env_extra=extra, reps=2 if thorough else 1, workdir=sc)
         ej = [threading.Thread(target=erun, args=(i,)) for i in range(3)]
         for t in ej:
             t.start()
@@ -253,15 +292,11 @@ def main():
         # ---------------------------------------------------------------- M verdicts (about the model only)
         r = vlib.expect_tlc_ok(res["design"], "WorkQueueMC")
         if r.violation:
-            raise vlib.MachineryError("WorkQueue (workers started first) violates %s - spec error\n%s" % (r.violation, "\n".join(r.cex[:60])))
+            raise vlib.MachineryError("WorkQueue (workers first / as built with W <= Q*N) violates %s - spec error\n%s" % (r.violation, "\n".join(r.cex[:60])))
         for a in ("Produce", "ProducerDone", "StartWorkers", "WaitDone", "CloseMapChan", "Return", "Take", "Scan", "Send", "Exit",
                   "Merge", "AggFinish"):
             vlib.require(r.coverage.get(a, (0, 0))[0] > 0, "vacuous: action %s never taken" % a)
-        run.add_tlc(r, "WorkQueueMC (workers first, W in %s, N in 1..3)" % wset)
-        r = vlib.expect_tlc_ok(res["fits"], "WorkQueueAsBuilt fits")
-        if r.violation:
-            raise vlib.MachineryError("WorkQueue as built with W <= Q*N violates %s - spec error" % r.violation)
-        run.add_tlc(r, "WorkQueueAsBuilt W<=Q*N")
+        run.add_tlc(r, "WorkQueueMC (workers first: W in %s; as built: W <= Q*N; N in 1..3)" % wset)
         if "two-ifaces" in res:
             r = vlib.expect_tlc_ok(res["two-ifaces"], "WorkQueueMC two interfaces")
             if r.violation:
@@ -299,6 +334,7 @@ def main():
                     entry["matches_model_deadlock_state"] = same
                     run.violation({"cls": "workqueue-deadlock", "where": "CreateWorkerJobs-send-before-workers", "binding": "F2"},
                                   {"kind": "wq-termination", "days": d, "cpus": k, "limit_s": round(limit, 1), "normal_s": round(tnorm, 2),
+                                   "stopped_after_s": round(c["secs"], 1),
                                    "dump_state": st, "model_deadlock_state": model_stuck, "goroutine_dump": kept[:12000],
                                    "cmd": "taskset -c 0 vh_workqueue wq-query -db <db with %d day directories>" % ndays, "query": days_query(d)})
                 else:
@@ -309,7 +345,8 @@ def main():
                 vlib.require(ev["numcpu"] == k, "taskset did not give the child %d CPUs" % k)
             term.append(entry)
             run.count(1)
-        run.cov["termination"] = {"normal_secs_2000_days": round(tnorm, 2), "limit_secs": round(limit, 1), "cases": term}
+        run.cov["termination"] = {"normal_secs_2000_days": round(tnorm, 2), "limit_secs": round(limit, 1), "probe_secs": round(probe, 1),
+                                  "cases": term}
         ended = {(e["days"], e["cpus"]): e["ended"] for e in term}
         run.cov["order_in_code"] = ("as built (producer completes before workers start)"
                                     if all(ended[x] == pred[x]["asbuilt_ends"] for x in ended) and not all(ended.values())
@@ -326,8 +363,14 @@ def main():
         for ci, (k, lowmem, gmp, extra) in enumerate(configs):
             c = eres[ci]
             vlib.require(not c["timeout"], "equality child k=%d timed out (inconclusive): %s" % (k, c["stderr"][-600:]))
-            vlib.require(c["rc"] == 0 and len(c["events"]) == len(queries) * (2 if thorough else 1),
-                         "equality child k=%d failed: %s" % (k, c["stderr"][-600:]))
+            if c["rc"] != 0 and ("panic:" in c["stderr"] or "fatal error:" in c["stderr"]):
+                i = max(c["stderr"].find("panic:"), c["stderr"].find("fatal error:"))
+                run.violation({"cls": "query-crash", "k": k, "lowmem": lowmem, "binding": "F1"},
+                              {"kind": "wq-equality", "config": {"k": k, "lowmem": lowmem, "gomaxprocs": gmp}, "seed": run.seed, "days": edays,
+                               "queries": queries, "stderr": c["stderr"][max(0, i - 300):i + 3000]})
+            else:
+                vlib.require(c["rc"] == 0 and len(c["events"]) == len(queries) * (2 if thorough else 1),
+                             "equality child k=%d failed: %s" % (k, c["stderr"][-600:]))
             for e in c["events"]:
                 vlib.require(e["numcpu"] == k, "taskset did not give the child %d CPUs (saw %d)" % (k, e["numcpu"]))
                 nchild += 1
@@ -362,7 +405,7 @@ def main():
         mlines = {m.get("line") for m in t.mismatches}
         vlib.require(negline in mlines, "negative control: a result with a dropped row was accepted by QueryTrace")
         run.cov["negative_control_equality"] = "copy of a child's result with one row dropped rejected"
-        run.cov["traces_validated_against_impl"] += len(lines) - 3
+        run.cov["traces_validated_against_impl"] += nchild + len(tline)
         run.cov["equality"] = {"configs": len(configs), "worker_counts": ks, "queries": len(queries), "results": nchild,
                                "distinct_results_judged": len(order), "day_directories": edays,
                                "records": json.loads(eq_dbev)["records"], "rows_per_query": [len(e["rows"]) for e, _ in order][:8]}
@@ -407,7 +450,8 @@ def replay(path):
         if d["kind"] == "wq-termination":
             db = os.path.join(sc, "days")
             subprocess.run([vh, "wq-days", "-dir", db, "-days", str(d["days"] + 10)], stdout=subprocess.DEVNULL, check=True)
-            c = child(vh, "0" if d["cpus"] == 1 else "0-%d" % (d["cpus"] - 1), db, [d["query"]], limit=max(30.0, d.get("limit_s", 30)))
+            c = child(vh, "0" if d["cpus"] == 1 else "0-%d" % (d["cpus"] - 1), db, [d["query"]], limit=max(30.0, d.get("limit_s", 30)),
+                      probe=8.0, workdir=sc)
             if c["timeout"]:
                 st, kept = abstract_dump(c["stderr"])
                 print(json.dumps(st))
